@@ -15,6 +15,8 @@
  *   mq <depth> <msglen> <nsenders> <msgs per sender> <receiver attempts>                   (threads 0..n-1 senders, n receiver)
  *   fibre <nisr> <calls per isr> <passes>     main context (thread 0) runs scheduler passes over 3 fibres, interrupt
  *                                             contexts (threads 1..nisr) call fibre_run_atomic
+ *   evq <nisr> <events per isr> <passes>      like `fibre`, but the interrupt contexts post EVENTS (fibre_eventq_claim, plain write
+ *                                             of the payload, fibre_eventq_send) to a handler fibre that receives, reads and releases them
  *   run <tid>...                  schedule, one segment per token; afterwards round robin until all threads are done
  * output per executed access:   E <tid> <aload|astore|armw> <object+offset> <order>     (atomic)
  *                               P <tid> <r|w> <object+offset> <size>                    (plain, shared objects only)
@@ -158,6 +160,37 @@ static void fib_isr(void *arg)
 	baton_finish("ret");
 }
 
+/* event queue: handler fibre drains its queue, interrupt contexts post events */
+#define EVSZ 8
+#define EVN 4
+static fibre_eventq_t evq;
+static unsigned char evmem[EVN * EVSZ];
+static int evq_handler(fibre_t *f)
+{
+	(void)f;
+	for (;;) {
+		unsigned char *e = fibre_eventq_receive(&evq);
+		volatile unsigned sum = 0;
+		if (!e)
+			return PT_WAITING;
+		for (int k = 0; k < EVSZ; k++) { trace_plain("r", e + k, 1); sum += e[k]; }
+		fibre_eventq_release(&evq, e);
+	}
+}
+static void evq_isr(void *arg)
+{
+	long id = (long)arg;
+	for (int i = 0; i < isr_calls; i++) {
+		unsigned char *e = fibre_eventq_claim(&evq);
+		if (e) {
+			for (int k = 0; k < EVSZ; k++) { trace_plain("w", e + k, 1); e[k] = (unsigned char)(id * 32 + i); }
+			fibre_eventq_send(&evq, e);
+		}
+		baton_yield("ret");
+	}
+	baton_finish("ret");
+}
+
 static void do_run(char *toks)
 {
 	int stuck = 0, budget = SEG_BUDGET;
@@ -256,6 +289,28 @@ int main(void)
 			baton_spawn(fib_main, NULL);
 			for (long i = 0; i < nisr; i++)
 				baton_spawn(fib_isr, (void *)(i + 1));
+			nthreads = nisr + 1;
+			puts("ok");
+		} else if (!strcmp(op, "evq")) {
+			int nisr;
+			if (sscanf(rest, "%d %d %d", &nisr, &isr_calls, &passes) != 3 || nisr < 1 || nisr + 1 > BATON_MAXT) { puts("bad-op"); continue; }
+			extern void h_race_fibre_reset(void);
+			extern void h_race_fibre_names(void (*name)(const volatile void *, size_t, const char *));
+			h_race_fibre_reset();
+			memset(evmem, 0, sizeof evmem);
+			fibre_eventq_init(&evq, evq_handler, evmem, sizeof evmem, EVSZ);
+			baton_forget_names();
+			baton_name(&evq.eventq.num_free, sizeof evq.eventq.num_free, "evq.num_free");
+			baton_name(&evq.eventq.sendp, sizeof evq.eventq.sendp, "evq.sendp");
+			baton_name(&evq.eventq.full_flags, sizeof evq.eventq.full_flags, "evq.full_flags");
+			baton_name(&evq.eventq.receivep, sizeof evq.eventq.receivep, "evq.receivep");
+			baton_name(&evq, sizeof evq, "evq");
+			baton_name(evmem, sizeof evmem, "events");
+			h_race_fibre_names(baton_name);
+			baton_init();
+			baton_spawn(fib_main, NULL);
+			for (long i = 0; i < nisr; i++)
+				baton_spawn(evq_isr, (void *)(i + 1));
 			nthreads = nisr + 1;
 			puts("ok");
 		} else if (!strcmp(op, "run")) {
